@@ -57,6 +57,11 @@ def run_l2(run):
                 line("o", td_string!(l, o, count = n).to_string());
                 line("m", td_string!(l, m, count = n).to_string());
                 line("d", td_string!(l, d, count = n).to_string());
+                if pass == 1 && n <= 12 {
+                    // the count in every numeric type the accessor accepts: the form depends on the number, not on its Rust type
+                    macro_rules! typed { ($($t:ty),*) => { $( line(concat!("ty:", stringify!($t)), td_string!(l, k, count = n as $t).to_string()); )* } }
+                    typed!(i8, i16, i32, i64, u8, u16, u32, u64, isize, usize);
+                }
                 if pass == 1 && n <= 20 {
                     line("k", render(td!(l, k, count = move || n)));
                     line("d", render(td!(l, d, count = move || n)));
@@ -78,7 +83,8 @@ def run_l2(run):
     for ev in r["events"]:
         if "key" not in ev:
             continue
-        trace.append({"ev": "Render", "case": 1, "key": ev["key"], "locale": ev["locale"], "tok": str(ev["n"]), "pass": ev["pass"],
+        key, cty = (("k", ev["key"][3:]) if ev["key"].startswith("ty:") else (ev["key"], "u64"))
+        trace.append({"ev": "Render", "case": 1, "key": key, "cty": cty, "locale": ev["locale"], "tok": str(ev["n"]), "pass": ev["pass"],
                       "outcome": ev["outcome"], "out": probe.to_syms(ev["out"])})
     if len(trace) < 1000:
         raise vp.ToolError("plural probe produced %d events: %s" % (len(trace), r.get("stderr", "")[-300:]))
@@ -95,7 +101,7 @@ def run_l2(run):
     run.events += summary["events"]
     for rj in rejects:
         ev = trace[rj["l"] - 1]
-        run.violation("l2;key=%s;locale=%s;count=%s;pass=%s" % (ev["key"], ev["locale"], ev["tok"], ev["pass"]),
+        run.violation("l2;key=%s;type=%s;locale=%s;count=%s;pass=%s" % (ev["key"], ev["cty"], ev["locale"], ev["tok"], ev["pass"]),
                       "run-time form differs from CLDR: rendered %r" % vp.text_of(ev["out"]), {"event": ev})
     return len(trace) - 1
 
